@@ -503,6 +503,10 @@ class GateMemoizer:
         def make_context_entry(arg):
             if isinstance(arg, str):
                 return context.get(arg)
+            elif isinstance(arg, (list, tuple)):
+                # e.g. ("array_item", "q", "i"): the identifiers nested
+                # in the argument are resolved in the context too.
+                return tuple(make_context_entry(v) for v in arg)
             else:
                 return None
 
